@@ -807,13 +807,19 @@ func (r *Runner) Converge(variant string) (hits []model.Hit, ops int) {
 		order = append(order, model.JobNames[j])
 	}
 	failing := map[string]string{}
-	for round := 0; round < 40; round++ {
+	// batch size 100 or 1 (state-dependent): "for any batch size" - with 1 a job
+	// that cannot get past its first candidate stays stuck for good
+	maxDel, rounds := 100, 40
+	if r.M.Steps%2 == 1 {
+		maxDel, rounds = 1, 400
+	}
+	for round := 0; round < rounds; round++ {
 		progress := false
 		for _, j := range order {
 			if j == "delete-expired-subscriptions" && variant == "ack-all" {
 				continue // live subscriptions must stay; TTL expiry is not under test here
 			}
-			obs, en := do(model.Op{K: "job", Job: j, MinAge: time.Hour, MaxDel: 100})
+			obs, en := do(model.Op{K: "job", Job: j, MinAge: time.Hour, MaxDel: maxDel})
 			if !en {
 				continue
 			}
@@ -834,7 +840,7 @@ func (r *Runner) Converge(variant string) (hits []model.Hit, ops int) {
 		return
 	}
 	for j, e := range failing {
-		hits = append(hits, model.Hit{Rule: "job-stuck", Props: []string{"C15"}, Text: fmt.Sprintf("[%s] at the fixpoint (no job reclaims anything any more, order %v) job %s still fails: %s", variant, order, j, e)})
+		hits = append(hits, model.Hit{Rule: "job-stuck", Props: []string{"C15"}, Text: fmt.Sprintf("[%s] at the fixpoint (no job reclaims anything any more, order %v, batch size %d) job %s still fails: %s", variant, order, maxDel, j, e)})
 	}
 	snap, err := r.W.Dump()
 	if err != nil {
